@@ -548,6 +548,7 @@ func (p c07) runAsync(sc *Scenario, prog *starlark.Program, ref c07run, res *Res
 	c.T = nil
 	c.YieldInVM = false
 	c.Model = nil
+	c.NoFaults = true
 	_, err2 := prog.Init(c.Th, pre)
 	res.Evals++
 	r2, ok2 := isCancelErr(err2)
